@@ -267,14 +267,14 @@ def argmin(ctx: Ctx, rep: Report) -> None:
                 rep.check(ok, A, f'{qn}:{key}', f.path, f.lineno, good, bad,
                           key=key)
             continue
-        sel = [n for n in g.nodes if isinstance(n.stmt, ast.Assign) and norm(
-            n.stmt.targets[0]) == 'params']
-        sp = [n for n in g.nodes if q.has_call('circuit.set_params',
-                                               ['params'])(n)]
+        # what is installed, read through its temporaries: the selection
+        # expression is the (substituted) argument of circuit.set_params
+        sp = [n for n in g.nodes if any(
+            norm(c.func) == 'circuit.set_params' and len(c.args) == 1
+            for c in n.calls())]
+        sel = sp
         rep.count(4)
-        ok = len(sel) == 1 and len(sp) == 1 and g.must(
-            lambda n: n is sp[0]) and not g.precedes(
-            lambda n: n is sel[0], lambda n: n is sp[0])
+        ok = len(sp) == 1 and g.must(lambda n: n is sp[0])
         rep.check(
             ok, A, qn + ':install', f.path, f.lineno,
             'the selected parameters are installed with set_params on '
@@ -284,7 +284,18 @@ def argmin(ctx: Ctx, rep: Report) -> None:
         )
         if not ok:
             continue
-        v = sel[0].stmt.value
+        inst = [c for c in sp[0].calls()
+                if norm(c.func) == 'circuit.set_params'][0]
+        def _one(name: str):
+            ds = [d for d in rd.reaching(sp[0], name) if d.value is not None]
+            return ds[0].value if len(ds) == 1 else None
+        v = inst.args[0]
+        if isinstance(v, ast.Name) and _one(v.id) is not None:
+            v = _one(v.id)                       # params = sorted(...)[0]
+        elif isinstance(v, ast.Subscript) and isinstance(
+                v.value, ast.Name) and _one(v.value.id) is not None:
+            v = ast.Subscript(                   # ranked = sorted(...); [0]
+                value=_one(v.value.id), slice=v.slice, ctx=ast.Load())
         form = None
         if isinstance(v, ast.Subscript) and isinstance(
             v.value, ast.Call,
